@@ -290,7 +290,9 @@ func longestPrefix(s1, s2 string) int {
 		prev := state // s1[:i] == s2[:i]，两者在 i 之前的状态是相同的。
 		switch s1[i] {
 		case startByte:
-			startIndex = i
+			if state != startByte { // 参数中的 { 不是参数的起始位置，比如 {id:\d{2}}
+				startIndex = i
+			}
 			state = startByte
 		case endByte:
 			state = endByte
